@@ -70,13 +70,50 @@ Lemma literal_bits :
   DvbFloat.c_365_25 = S754_finite false 6425545952722944 (-44).
 Proof. vm_compute. repeat split. Qed.
 
-(* ================= the calendar of the Spec is the Gregorian calendar ================= *)
+(* ================= one pass over the days of the range ================= *)
 
-(* closed form = day-by-day rule on the range of the property (and up to the end of the Annex C range) *)
-Lemma calendar_sweep :
-  all_range (fun mjd => andb (triple_eqb (civil_of_mjd (mjd + 1)) (next_day (civil_of_mjd mjd)))
-                             (andb (valid_date (civil_of_mjd mjd)) (mjd_of_civil (civil_of_mjd mjd) =? mjd)))
-            mjd_lo annex_c_hi = true.
+(* Everything that is claimed about a day of the range, for the date c the day-by-day rule assigns to it:
+   the closed-form calendar of the Spec, the Annex C formulas over the rationals, the integer model of
+   parseDVBTime's and writeDVBTime's date arithmetic and the model of package time all agree with c. *)
+Definition date_ok (mjd : Z) (c : Z * Z * Z) : bool :=
+  let '(y, m, d) := c in
+  andb (valid_date c)
+  (andb (days_of_civil y m d =? mjd - 40587)
+  (andb (triple_eqb (annex_c_ymd mjd) c)
+  (andb (annex_c_mjd c =? mjd)
+  (andb (triple_eqb (dvb_ymd mjd) c)
+  (andb (go_date_days y m d =? mjd - 40587)
+  (andb (triple_eqb (go_civil_of_days (mjd - 40587)) c)
+  (andb (dvb_mjd_of_ymd y m d =? mjd)
+        (andb (andb (1900 <=? y) (y <=? 2038)) (andb (1 <=? m) (m <=? 12)))))))))).
+
+(* c walks through the calendar by next_day, starting from the anchor; the closed form must follow it *)
+Fixpoint date_chain (c : Z * Z * Z) (mjd : Z) (n : nat) : bool :=
+  match n with
+  | O => true
+  | S k => if andb (triple_eqb (civil_of_mjd mjd) c) (date_ok mjd c)
+           then date_chain (next_day c) (mjd + 1) k else false
+  end.
+
+Lemma date_chain_spec n : forall c lo, date_chain c lo n = true ->
+  forall x, lo <= x < lo + Z.of_nat n ->
+    date_ok x (civil_of_mjd x) = true /\
+    (x + 1 < lo + Z.of_nat n -> civil_of_mjd (x + 1) = next_day (civil_of_mjd x)).
+Proof.
+  induction n as [|n IH]; intros c lo H x Hx; [lia|].
+  cbn [date_chain] in H.
+  destruct (andb (triple_eqb (civil_of_mjd lo) c) (date_ok lo c)) eqn:E; [|discriminate].
+  apply andb_prop in E as [E1 E2]. apply triple_eqb_eq in E1.
+  destruct (Z.eq_dec x lo) as [->|Hne].
+  - split; [rewrite E1; exact E2|]. intros Hlt.
+    destruct n as [|n']; [lia|]. cbn [date_chain] in H.
+    destruct (andb (triple_eqb (civil_of_mjd (lo + 1)) (next_day c)) (date_ok (lo + 1) (next_day c))) eqn:E'; [|discriminate].
+    apply andb_prop in E' as [E1' _]. apply triple_eqb_eq in E1'. rewrite E1', E1. reflexivity.
+  - destruct (IH _ _ H x ltac:(lia)) as [A B]. split; [exact A|]. intros Hlt. apply B. lia.
+Qed.
+
+(* 1900-03-01 .. 2038-04-23 (one day beyond the range, for the step out of the last day): 50458 days *)
+Lemma date_sweep : date_chain (1900, 3, 1) mjd_lo (Z.to_nat (mjd_hi - mjd_lo + 2)) = true.
 Proof. vm_cast_no_check (eq_refl true). Qed.
 
 Lemma calendar_anchor :
@@ -84,26 +121,43 @@ Lemma calendar_anchor :
   civil_of_mjd 40587 = (1970, 1, 1) /\ civil_of_mjd mjd_hi = (2038, 4, 22) /\ civil_of_mjd annex_c_hi = (2100, 2, 28).
 Proof. vm_compute. repeat split. Qed.
 
-Lemma calendar_step mjd : mjd_lo <= mjd <= annex_c_hi ->
+Lemma date_facts mjd : mjd_lo <= mjd <= mjd_hi ->
+  date_ok mjd (civil_of_mjd mjd) = true /\ civil_of_mjd (mjd + 1) = next_day (civil_of_mjd mjd).
+Proof.
+  intros H. unfold mjd_lo, mjd_hi in H.
+  destruct (date_chain_spec _ _ _ date_sweep mjd) as [A B]; [unfold mjd_lo, mjd_hi; lia|].
+  split; [exact A|]. apply B. unfold mjd_lo, mjd_hi. lia.
+Qed.
+
+Lemma date_ok_elim mjd y m d : date_ok mjd (y, m, d) = true ->
+  valid_date (y, m, d) = true /\ days_of_civil y m d = mjd - 40587 /\
+  annex_c_ymd mjd = (y, m, d) /\ annex_c_mjd (y, m, d) = mjd /\
+  dvb_ymd mjd = (y, m, d) /\ go_date_days y m d = mjd - 40587 /\
+  go_civil_of_days (mjd - 40587) = (y, m, d) /\ dvb_mjd_of_ymd y m d = mjd /\
+  1900 <= y <= 2038 /\ 1 <= m <= 12.
+Proof.
+  unfold date_ok. intros E.
+  repeat (let E' := fresh "E" in apply andb_prop in E as [E' E]).
+  repeat match goal with H : triple_eqb _ _ = true |- _ => apply triple_eqb_eq in H end.
+  repeat split; try assumption; lia.
+Qed.
+
+(* closed form = day-by-day rule; every date is a valid date; the two directions are inverse *)
+Lemma calendar_step mjd : mjd_lo <= mjd <= mjd_hi ->
   civil_of_mjd (mjd + 1) = next_day (civil_of_mjd mjd) /\ valid_date (civil_of_mjd mjd) = true /\
   mjd_of_civil (civil_of_mjd mjd) = mjd.
 Proof.
-  intros H. pose proof (all_range_spec _ _ _ calendar_sweep mjd H) as E. cbv beta in E.
-  apply andb_prop in E as [E1 E2]. apply andb_prop in E2 as [E2 E3].
-  split; [apply triple_eqb_eq, E1|]. split; [exact E2|]. apply Z.eqb_eq, E3.
+  intros H. destruct (date_facts mjd H) as [E S]. split; [exact S|]. clear S.
+  destruct (civil_of_mjd mjd) as [[y m] d]. apply date_ok_elim in E as (V & D & _).
+  split; [exact V|]. unfold mjd_of_civil. destruct calendar_anchor as [-> _]. lia.
 Qed.
 
-(* the Annex C formulas (over the rationals) are the calendar on their whole range of validity *)
-Lemma annex_c_sweep :
-  all_range (fun mjd => andb (triple_eqb (annex_c_ymd mjd) (civil_of_mjd mjd))
-                             (annex_c_mjd (civil_of_mjd mjd) =? mjd)) mjd_lo annex_c_hi = true.
-Proof. vm_cast_no_check (eq_refl true). Qed.
-
-Lemma annex_c_calendar mjd : mjd_lo <= mjd <= annex_c_hi ->
+(* the Annex C formulas (over the rationals) are the calendar *)
+Lemma annex_c_calendar mjd : mjd_lo <= mjd <= mjd_hi ->
   annex_c_ymd mjd = civil_of_mjd mjd /\ annex_c_mjd (civil_of_mjd mjd) = mjd.
 Proof.
-  intros H. pose proof (all_range_spec _ _ _ annex_c_sweep mjd H) as E. cbv beta in E.
-  apply andb_prop in E as [E1 E2]. split; [apply triple_eqb_eq, E1|apply Z.eqb_eq, E2].
+  intros H. destruct (date_facts mjd H) as [E _].
+  destruct (civil_of_mjd mjd) as [[y m] d]. apply date_ok_elim in E as (_ & _ & A & B & _). auto.
 Qed.
 
 (* ================= decode: the date ================= *)
@@ -121,21 +175,13 @@ Proof. intros H. unfold DvbFloat.dvb_date_unix_float, dvb_date_unix. rewrite dec
 
 (* on the range of the property: (y, m, d) is the calendar date of the MJD (no normalisation by
    time.Date is involved: the date is valid), and time.Date of it is that day *)
-Lemma decode_date_sweep :
-  all_range (fun mjd => andb (triple_eqb (dvb_ymd mjd) (civil_of_mjd mjd))
-                             (let '(y, m, d) := dvb_ymd mjd in
-                              andb (go_date_days y m d =? mjd - 40587) (days_of_civil y m d =? mjd - 40587)))
-            mjd_lo mjd_hi = true.
-Proof. vm_cast_no_check (eq_refl true). Qed.
-
 Lemma decode_date mjd : mjd_lo <= mjd <= mjd_hi ->
   dvb_ymd mjd = civil_of_mjd mjd /\ dvb_date_unix mjd = 86400 * (mjd - 40587) /\
   (let '(y, m, d) := civil_of_mjd mjd in days_of_civil y m d) = mjd - 40587.
 Proof.
-  intros H. pose proof (all_range_spec _ _ _ decode_date_sweep mjd H) as E. cbv beta in E.
-  apply andb_prop in E as [E1 E2]. apply triple_eqb_eq in E1.
-  unfold dvb_date_unix. rewrite <- E1. destruct (dvb_ymd mjd) as [[y m] d].
-  apply andb_prop in E2 as [E2 E3]. apply Z.eqb_eq in E2, E3. rewrite E2. auto.
+  intros H. destruct (date_facts mjd H) as [E _].
+  destruct (civil_of_mjd mjd) as [[y m] d]. apply date_ok_elim in E as (_ & D & _ & _ & Ed & G & _).
+  split; [exact Ed|]. unfold dvb_date_unix. rewrite Ed. split; lia.
 Qed.
 
 Example decode_date_example : dvb_ymd 58849 = (2020, 1, 1) /\ dvb_date_unix 58849 = 1577836800.
@@ -172,24 +218,14 @@ Proof.
 Qed.
 
 (* t.Year/Month/Day of a day of the range is its calendar date, and the MJD expression returns the MJD *)
-Lemma encode_date_sweep :
-  all_range (fun mjd => andb (triple_eqb (go_civil_of_days (mjd - 40587)) (civil_of_mjd mjd))
-                             (let '(y, m, d) := go_civil_of_days (mjd - 40587) in
-                              andb (dvb_mjd_of_ymd y m d =? mjd)
-                                   (andb (andb (1900 <=? y) (y <=? 2038)) (andb (1 <=? m) (m <=? 12)))))
-            mjd_lo mjd_hi = true.
-Proof. vm_cast_no_check (eq_refl true). Qed.
-
 Lemma encode_date mjd : mjd_lo <= mjd <= mjd_hi ->
   go_civil_of_days (mjd - 40587) = civil_of_mjd mjd /\
   (let '(y, m, d) := go_civil_of_days (mjd - 40587) in
    dvb_mjd_of_ymd y m d = mjd /\ DvbFloat.ymd_to_mjd_float y m d = mjd).
 Proof.
-  intros H. pose proof (all_range_spec _ _ _ encode_date_sweep mjd H) as E. cbv beta in E.
-  apply andb_prop in E as [E1 E2]. split; [apply triple_eqb_eq, E1|].
-  destruct (go_civil_of_days (mjd - 40587)) as [[y m] d].
-  apply andb_prop in E2 as [E2 E3]. apply Z.eqb_eq in E2.
-  split; [exact E2|]. rewrite encode_float_int; [exact E2| |]; lia.
+  intros H. destruct (date_facts mjd H) as [E _].
+  destruct (civil_of_mjd mjd) as [[y m] d]. apply date_ok_elim in E as (_ & _ & _ & _ & _ & _ & Eg & Em & Hy & Hm).
+  rewrite Eg. split; [reflexivity|]. split; [exact Em|]. rewrite encode_float_int; lia.
 Qed.
 
 (* ================= durations: arithmetic (proved for all whole seconds, no enumeration) ================= *)
@@ -242,27 +278,42 @@ Proof.
   apply Z.eqb_eq in H2. exact H2.
 Qed.
 
-Lemma dur_float_hours_sweep : split_sweep ns_hour 3599 99 = true.
-Proof. vm_cast_no_check (eq_refl true). Qed.
-Lemma dur_float_minutes_sweep : split_sweep ns_minute 59 5999 = true.
-Proof. vm_cast_no_check (eq_refl true). Qed.
-Lemma dur_float_seconds_sweep : split_sweep ns_second 0 359999 = true.
-Proof. vm_cast_no_check (eq_refl true). Qed.
-
-Lemma dur_float_parts sec : 0 <= sec <= 359999 ->
+(* from the three sweeps for durations below (H+1) hours to the three float expressions *)
+Lemma dur_float_parts_from H : 0 <= H ->
+  split_sweep ns_hour 3599 H = true -> split_sweep ns_minute 59 (60 * (H + 1) - 1) = true ->
+  split_sweep ns_second 0 (3600 * (H + 1) - 1) = true ->
+  forall sec, 0 <= sec <= 3600 * (H + 1) - 1 ->
   DvbFloat.dur_hours_float (sec * ns_second) = dur_hours (sec * ns_second) /\
   DvbFloat.dur_minutes_float (sec * ns_second) = dur_minutes (sec * ns_second) /\
   DvbFloat.dur_seconds_float (sec * ns_second) = dur_seconds (sec * ns_second).
 Proof.
-  intros H. destruct (dur_whole sec ltac:(lia)) as (D1 & D2 & D3).
+  intros HH Sh Sm Ss sec H0. destruct (dur_whole sec ltac:(lia)) as (D1 & D2 & D3).
   unfold DvbFloat.dur_hours_float, DvbFloat.dur_minutes_float, DvbFloat.dur_seconds_float.
   change ns_hour with (3600 * ns_second). change ns_minute with (60 * ns_second).
   change (DvbFloat.dur_split_float (sec * ns_second) ns_second) with (DvbFloat.dur_split_float (sec * ns_second) (1 * ns_second)).
   rewrite !dur_split_whole by lia.
   change (3600 * ns_second) with ns_hour. change (60 * ns_second) with ns_minute. change (1 * ns_second) with ns_second.
-  rewrite (split_sweep_spec _ _ _ dur_float_hours_sweep) by lia.
-  rewrite (split_sweep_spec _ _ _ dur_float_minutes_sweep) by lia.
-  rewrite (split_sweep_spec _ _ _ dur_float_seconds_sweep) by lia.
+  rewrite (split_sweep_spec _ _ _ Sh) by lia.
+  rewrite (split_sweep_spec _ _ _ Sm) by lia.
+  rewrite (split_sweep_spec _ _ _ Ss) by lia.
   rewrite D1, D2, D3. repeat split; lia.
 Qed.
 
+(* every second of a day (what writeDVBTime needs).  The same three sweeps for all durations below
+   100 h are in Proofs/DvbDuration100hProofs.v, outside the cone of Props/C15.v (coqchk, which does not
+   use the VM, would need an extra quarter of an hour for them). *)
+Lemma dur_float_hours_sweep : split_sweep ns_hour 3599 23 = true.
+Proof. vm_cast_no_check (eq_refl true). Qed.
+Lemma dur_float_minutes_sweep : split_sweep ns_minute 59 1439 = true.
+Proof. vm_cast_no_check (eq_refl true). Qed.
+Lemma dur_float_seconds_sweep : split_sweep ns_second 0 86399 = true.
+Proof. vm_cast_no_check (eq_refl true). Qed.
+
+Lemma dur_float_parts sec : 0 <= sec <= 86399 ->
+  DvbFloat.dur_hours_float (sec * ns_second) = dur_hours (sec * ns_second) /\
+  DvbFloat.dur_minutes_float (sec * ns_second) = dur_minutes (sec * ns_second) /\
+  DvbFloat.dur_seconds_float (sec * ns_second) = dur_seconds (sec * ns_second).
+Proof.
+  intros H. apply (dur_float_parts_from 23 ltac:(lia) dur_float_hours_sweep dur_float_minutes_sweep dur_float_seconds_sweep).
+  lia.
+Qed.
